@@ -1,6 +1,7 @@
 import ErgoVerif.Lemmas.EdfTop
 import ErgoVerif.Lemmas.EdfSafe
 import ErgoVerif.Lemmas.EdfReenc2
+import ErgoVerif.Lemmas.EdfDecGood3
 import ErgoVerif.Model.EdfAlloc
 import ErgoVerif.Props.C11
 /-!
@@ -154,7 +155,7 @@ theorem C16_reencode_counterexample : ¬ C16_reencode_full := by
 
 /-- Outside the defect regions (`Good`, see `Props/C11`): whatever edf.Decode returns for a packet shorter than
     4 GiB can be encoded again, and those bytes decode to the same value of the same type with nothing left over. -/
-theorem C16_reencode_partial (o : Opts) (hc : CachesConsistent o) (hd : DecSideOK o) (fuel : Nat) (bs : Bytes)
+theorem C16_reencode_of_good (o : Opts) (hc : CachesConsistent o) (hd : DecSideOK o) (fuel : Nat) (bs : Bytes)
     (t : Ty) (v : Val) (rest : Bytes) (hL : bs.length < 4294967295)
     (h : decodeRaw o fuel bs = .ok (some (t, v), rest))
     (hdesc : DescOK o t) (hl : (encTy o t).length < 65536) (hg : Good o t v) :
@@ -194,13 +195,60 @@ theorem C16_reencode_partial (o : Opts) (hc : CachesConsistent o) (hd : DecSideO
   · simp at h
   · simp at h
 
-/-- non-vacuity of `C16_reencode_partial`: the 26-byte encoding of `P{"hi", []int16{1,-1}, any([]string(nil))}` decodes,
+/-- non-vacuity of `C16_reencode_of_good`: the 26-byte encoding of `P{"hi", []int16{1,-1}, any([]string(nil))}` decodes,
     the decoded value satisfies the hypotheses, hence re-encodes and decodes again -/
 example : ∃ bs', encode o0 pTy pVal = some bs' ∧ decodeRaw o0 5 bs' = .ok (some (pTy, pVal), []) :=
-  C16_reencode_partial o0 o0_consistent o0_decside 5
+  C16_reencode_of_good o0 o0_consistent o0_decside 5
     [131, 0, 4, 0x23, 0x6d, 0x2f, 0x50, 0, 2, 0x68, 0x69, 157, 0, 0, 0, 2, 0, 1, 0xff, 0xff, 130, 0, 2, 157, 141, 255]
     pTy pVal [] (by decide) (by decide)
     (by simp [DescOK, pTy, RegOK, o0, pName, zsName]) (by decide)
     (by simp [pTy, pVal, Good, Goodf, Goods, LeafGood, DescOK, numCanon, lim32, Vals.length, Ty.nz, encTy])
+
+/-- The strongest re-encoding statement for the current code, with no hypothesis about the decoded value other than
+    the two decidable side conditions of `Side`: it lies outside the zero-width defect region, and the descriptors
+    of its dynamic types fit the 16-bit length field when written again.  Everything else `Good` asks for is
+    PROVED of every decoded value (`dec_good`): registered dynamic types, map keys distinct and hashable, lengths
+    below 2^32, quiet float32 NaNs, atoms and sentinels the encoding side can express (`DecGoodOK`: the decode-side
+    caches and mappings hand out only such atoms/errors — with identity mappings and caches built by the handshake
+    this is the inverse direction of `CachesConsistent`). -/
+theorem C16_reencode_partial (o : Opts) (hc : CachesConsistent o) (hd : DecSideOK o) (hg : DecGoodOK o) (fuel : Nat)
+    (bs : Bytes) (t : Ty) (v : Val) (rest : Bytes) (hL : bs.length < 4294967295)
+    (h : decodeRaw o fuel bs = .ok (some (t, v), rest))
+    (hl : (encTy o t).length < 65536) (hs : Side o t v) :
+    ∃ bs', encode o t v = some bs' ∧ decodeRaw o fuel bs' = .ok (some (t, v), []) := by
+  have h' := h
+  unfold decodeRaw at h'
+  split at h'
+  · simp at h'
+  · rename_i t0 r0 dt hgd
+    have hdesc0 := getDecoder_DescOK o hg true bs t0 r0 dt hgd
+    split at h'
+    · rename_i v0 r1 hv
+      simp at h'
+      obtain ⟨hn, _⟩ := h'
+      rcases topNorm_cases t0 v0 t v hn with ⟨rfl, rfl⟩ | ⟨_, _, rfl, rfl⟩
+      · have hgood := dec_good o hg fuel dt .any r0 (.any t v) r1 hv (by simp only [Side]; exact ⟨hl, hs⟩)
+        simp only [Good] at hgood
+        exact C16_reencode_of_good o hc hd fuel bs t v rest hL h hgood.1 hl hgood.2.2
+      · have hgood := dec_good o hg fuel dt t r0 v r1 hv hs
+        exact C16_reencode_of_good o hc hd fuel bs t v rest hL h hdesc0 hl hgood
+    · simp at h'
+    · simp at h'
+  · simp at h'
+  · simp at h'
+
+theorem o0_decgood : DecGoodOK o0 := by
+  refine ⟨?_, by simp [o0], by simp [o0], ?_⟩
+  · intro a ha; simp [AtomOK, o0]; exact ha
+  · intro nm t h
+    simp only [o0] at h
+    split at h
+    · cases h; simp [DescOK, zsTy, RegOK, o0, Ty.composite, zsName]
+    · split at h
+      · cases h; simp [DescOK, pTy, RegOK, o0, Ty.composite, pName, zsName]
+      · simp at h
+
+/-- non-vacuity: the hypotheses hold for the packet of the previous example; `Side` is all that is asked of the value -/
+example : Side o0 pTy pVal := by simp [pTy, pVal, Side, Sidef, Sides, Ty.nz, encTy, Vals.length]
 
 end ErgoVerif.Props.C16
